@@ -281,3 +281,7 @@ PROPS["C16"]["race"] = True
 _c16 = PROPS["C16"]["shards"]
 PROPS["C16"]["shards"] = lambda tier, seed, search=False: _c16(tier, seed, search) + concstore_shards(tier, seed, search, props=("C16",))[:2]
 PROPS["C11"]["rule"] = STORE_RULE + "; plus the concurrent store family: two explicit refreshes and a background tick started together while the service is held - at most one conditional request may be waiting at any time (coalescing)"
+
+_c10 = PROPS["C10"]["shards"]
+PROPS["C10"]["shards"] = lambda tier, seed, search=False: _c10(tier, seed, search) + fields_shards(tier, seed, search)[:2]
+PROPS["C10"]["rule"] = STORE_RULE + "; plus the struct-tag family (names declared both in Secrets and by struct tags, duplicates across the two routes)"
